@@ -350,8 +350,9 @@ func (in *c06Interp) exec(line string) string {
 
 type c06Gen struct {
 	rng *zz.RNG
-	ops []string
-	seq uint64
+	ops   []string
+	seq   uint64
+	ncase int // tag on the get lines, so that equal reads of different cases are distinct op lines
 }
 
 func (g *c06Gen) emit(f string, a ...any) { g.ops = append(g.ops, fmt.Sprintf(f, a...)) }
@@ -383,15 +384,16 @@ func (g *c06Gen) pushEntry(e c06Entry, addrs ...uint64) {
 
 func (g *c06Gen) finish(addrs []uint64, limits ...int) {
 	g.emit("close")
+	g.ncase++
 	for _, a := range addrs {
-		g.emit("get %d %d", a, 1<<30)
+		g.emit("get %d %d c%d", a, 1<<30, g.ncase)
 	}
 	for _, l := range limits {
 		if len(addrs) > 0 {
-			g.emit("get %d %d", addrs[g.rng.Intn(len(addrs))], l)
+			g.emit("get %d %d c%d", addrs[g.rng.Intn(len(addrs))], l, g.ncase)
 		}
 	}
-	g.emit("get %d %d", 999999999, 1<<30) // never pushed
+	g.emit("get %d %d c%d", 999999999, 1<<30, g.ncase) // never pushed
 }
 
 func (g *c06Gen) sched(i int) string {
